@@ -242,13 +242,14 @@ class Infeasible(Exception):
 
 
 class Frame:
-    __slots__ = ("id", "body", "depth", "ctx")
+    __slots__ = ("id", "body", "depth", "ctx", "cparams")
 
-    def __init__(self, fid, body, depth, ctx=None):
+    def __init__(self, fid, body, depth, ctx=None, cparams=None):
         self.id = fid
         self.body = body
         self.depth = depth
         self.ctx = ctx          # call-site context of an inlined new helper: keeps the labels of two activations apart
+        self.cparams = cparams  # values of the callee's const generic parameters at this call (`f::<16>(..)`), when known
 
 
 class Outcome:
@@ -708,6 +709,10 @@ class Interp:
                 v = self.eval_named_const(frame, op["named"], st)
                 if v is not None:
                     return v
+            if "named" not in op and "s" not in op and frame.cparams and len(frame.cparams) == 1 and \
+                    tys in ("usize", "u8", "u16", "u32", "u64", "u128", "isize", "i8", "i16", "i32", "i64"):
+                # an unevaluated integer constant of a function with a single const generic parameter is that parameter
+                return Const(frame.cparams[0], tys)
             return Top("const:%s" % (op.get("named") or op.get("s", "?"))[:60], tys)
         return Top("operand")
 
@@ -829,6 +834,8 @@ class Interp:
             return Top("unop")
         if k == "repeat":
             n = rv.get("n")
+            if n is None and frame.cparams and len(frame.cparams) == 1:
+                n = frame.cparams[0]            # `[0u8; N]` in a function generic over N
             if isinstance(n, int) and 0 < n <= 64 and self.concrete_iters:
                 e = self.operand(frame, rv["op"], st)
                 return Adt("array", 0, tuple(e for _ in range(n)))      # small literal arrays keep their length
@@ -1008,11 +1015,11 @@ class Interp:
         -> list of Outcome"""
         return self.call_body(body, args, st, 0)
 
-    def call_body(self, body, args, st, depth, ctx=None):
+    def call_body(self, body, args, st, depth, ctx=None, cparams=None):
         if depth > self.max_depth:
             raise Budget("call depth")
         self.frame_counter += 1
-        frame = Frame(self.frame_counter, body, depth, ctx)
+        frame = Frame(self.frame_counter, body, depth, ctx, cparams)
         self.stepped.add(body.path)
         st = st.fork()
         for i, a in enumerate(args):
@@ -1285,7 +1292,8 @@ class Interp:
             ctx = frame.ctx
             if self.is_new_helper(body):
                 ctx = site.rsplit(":", 1)[1]
-            outs = self.call_body(body, args, st, frame.depth + 1, ctx)
+            cps = [int(m_.group(1)) for m_ in (re.match(r"const (-?\d+)", str(a_)) for a_ in (fn.get("rargs") or fn.get("args") or [])) if m_]
+            outs = self.call_body(body, args, st, frame.depth + 1, ctx, cps or None)
             return [(o.ret, o.st) for o in outs]
         return self.opaque_call(fn.get("rfull") if fn.get("resolved") and fn.get("rfull") else path, args, st, site, frame)
 
